@@ -17,10 +17,7 @@ NA = {
  "C18": "Behaviour at an analysis limit is a pure function of program size; needs size-parameterised program generation only.",
 }
 
-PENDING = {
- k: "Claimed in DESIGN.md, engine not built yet in this snapshot of /verif (work in progress); no check is registered until it exists."
- for k in ["C02", "C11", "C12", "C14", "C15", "C16"]
-}
+PENDING = {}
 
 def chk(pid, engine, technique, text, note, design):
     return {
@@ -56,6 +53,21 @@ CHECKS = {
    "Seeded search over typed programs biased to the shapes that store, return, alias and recycle strings/arrays/builders, times reclaimer knobs. Every program's printed values and ending must equal the reference configuration's; a death of the interpreter with reclamation on is a violation. Sampling, not proof.",
    "The reference is the interpreter itself with frame = None, as the property defines it. Rejected programs, reference stack overflows/deaths and genuine allocation failures are discarded and counted.",
    "DESIGN.md 3.6"),
+ "C11": chk("C11", "vmsim",
+   "deterministic simulation with fault injection: seeded operation histories against the real bump/scratch arenas over a simulated kernel VM (mmap/mprotect seam) that refuses chosen commits and reservations; shadow model of live ranges, canaries and pages checked after every operation",
+   "Seeded search over histories of allocate/grow/shrink/reset/decommit/Vec and string growth/nested scratch borrows with injected commit and reserve failures. Placement, bounds, alignment, committed pages, contents of every live block and object, clean failure, decommit watermark, scratch flip/flop and offset restoration are checked after each operation. Sampling, not proof.",
+   "Real pages; the stub only decides which mmap/mprotect calls fail and mirrors page state. Caller-contract violations are not issued.",
+   "DESIGN.md 3.4"),
+ "C12": chk("C12", "poolsim",
+   "deterministic simulation: seeded allocate/release histories by several owners against the real string pool with class exhaustion and full backing arena as injected resource faults; multiset/interval reference model with conservation invariant after every operation",
+   "Seeded search over histories (1-16 owners, LIFO/FIFO/random release, sizes at class boundaries, tiny classes, focused histories) checked operation by operation against a model: no overlap, class and slot boundary, live+free+never-used == capacity, free list == returned slots, release lands on its own class, fallback memory fresh and never recycled, contains() exact. Weakest fit for this family (single-threaded, no time or I/O) and said so in DESIGN.md.",
+   "Driven through cfg-gated public wrappers over the crate-private pool; buffers are released with the size they were requested with, as the runtime does.",
+   "DESIGN.md 3.5"),
+ "C14": chk("C14", "sessionsim+clidiff",
+   "deterministic simulation of run histories in one process over the process-global scratch arenas with faults between runs (wasm-like no-op decommit, junk scribbling of all dead memory, runs ended early by planted errors), oracle = each program alone on fresh arenas; plus configuration differential of the real naija binary (file/--eval/stdin in seeded chunks) against the library prediction",
+   "Sessions: seeded sequences of generated programs (45 % with a planted lexical/syntax/static/warning/runtime error) through a call-for-call native replica of the playground entry point, stale memory kept and scribbled between runs; every run must equal the same program alone and repeats must be identical. CLI: stdout bytes and exit status of the un-hooked binary equal the library's prediction on the three input routes. Sampling, not proof.",
+   "The playground entry point is a native replica of wasm/src/lib.rs (not compiled here). The CLI part has no fault or schedule beyond stdin chunking and is labelled configuration differential testing.",
+   "DESIGN.md 3.7"),
 }
 
 def main():
@@ -76,7 +88,7 @@ def main():
         "hooks": {
             "guard": "--cfg naijascript_verif",
             "enable": "RUSTFLAGS=\"--cfg naijascript_verif\" NAIJASCRIPT_VERIF_DIR=/verif/sim/shim cargo build --offline --profile simdbg|simrel in /verif/sim (shadow manifest generated by sim/gen_manifest.py whose [lib] path is /repo/src/lib.rs; /repo/Cargo.toml and Cargo.lock are not touched); ./check does this on every invocation",
-            "baseline_off_cmd": "cd /repo && cargo test --workspace --no-fail-fast --offline",
+            "baseline_off_cmd": "cd /repo && cargo nextest run --workspace --no-fail-fast --tool-config-file pb:/w/lib/nextest.toml --profile pb --test-threads 8 --offline",
             "source_commits": repo_commits,
             "add_only": True,
         },
@@ -90,6 +102,9 @@ def main():
         f.write("\n")
 
 ENGINES = [
+ {"name": "vmsim", "path": "sim/harness/src/c11.rs + sim/shim/libc.rs", "serves_properties": ["C11"], "kind_free_text": "operation histories over real arenas with a simulated kernel VM (failing commits/reserves, page model)"},
+ {"name": "poolsim", "path": "sim/harness/src/c12.rs + sim/shim/pool_api.rs", "serves_properties": ["C12"], "kind_free_text": "multi-owner allocate/release histories against a multiset model, exhaustion faults"},
+ {"name": "sessionsim+clidiff", "path": "sim/harness/src/c14.rs", "serves_properties": ["C14"], "kind_free_text": "run histories over the global scratch arenas with stale-memory faults; real naija binary differential"},
  {"name": "hostsim", "path": "sim/harness/src/hostsim.rs + c15.rs + c16.rs + sim/shim/host.rs", "serves_properties": ["C15", "C16"], "kind_free_text": "shuttle-controlled tasks, own seeded/recordable/replayable Scheduler, discrete-event clock task, simulated child processes and bounded pipes, fault plan"},
  {"name": "memsim", "path": "sim/harness/src/c02.rs + prog.rs + sim/shim/mem.rs", "serves_properties": ["C02"], "kind_free_text": "typed program generator with structural shrinker; reclamation on/off differential under poison/scribble and tiny-pool knobs"},
  {"name": "stdinsim", "path": "sim/harness/src/c17.rs", "serves_properties": ["C17"], "kind_free_text": "simulated read(2) on fd 0 (sim/shim/libc.rs) under the real UnixStdin::read_line and runtime"},
